@@ -359,6 +359,53 @@ func cmdLifecycle(f hx.Flags, r *hx.Result) {
 	}
 	r.NonTrivial(int64(len(sigs)))
 	log.TimeNow, log.StringFromContext, log.FieldsFromContext = nil, nil, nil
+	if !hx.Stopped() {
+		lcReentrantDestroy(r, false)
+		lcReentrantDestroy(r, true)
+	}
+}
+
+// lcReentrantDestroy: the state "while Destroy is running".  An appender's Stop logs through a tag and writes through
+// a handle of the very system that is being destroyed; like in every other state that must neither panic nor block
+// (where the bytes go is left open).
+func lcReentrantDestroy(r *hx.Result, async bool) {
+	log.Destroy()
+	log.VerifReset()
+	sys.ResetAppenders()
+	tag := log.RegisterTag(lcTagNames["T1"])
+	tag2 := log.RegisterTag(lcTagNames["T2"])
+	ha := log.GetLogger("ha")
+	c := lcConfig("A", async, log.InfoLevel, log.MaxLevel)
+	if err := log.Refresh(c.Map(nil)); err != nil {
+		r.SetInfra("reentrant destroy: refresh: %v", err)
+		return
+	}
+	ctx := context.Background()
+	log.Info(ctx, tag, log.Int("id", 1))
+	var inner any
+	calls := 0
+	sys.OnStop = func(string) {
+		calls++
+		if p := hx.Catch(func() {
+			log.Error(ctx, tag, log.Int("id", int64(100+calls)))
+			log.Info(ctx, tag2, log.Int("id", int64(200+calls)))
+			_, _ = ha.Write([]byte("from Stop\n"))
+		}); p != nil && inner == nil {
+			inner = p
+		}
+	}
+	ret, p := hx.Within(8*time.Second, func() { log.Destroy() })
+	sys.OnStop = nil
+	r.Eval(1)
+	desc := map[string]any{"scenario": "an appender logs from inside its Stop while Destroy runs", "async": async, "stop_calls": calls}
+	switch {
+	case !ret:
+		r.Violate("blocked:reentrant-destroy", desc, "Destroy did not return within 8 s")
+	case p != nil || inner != nil:
+		r.Violate("log-panic:during-destroy", desc, "logging from an appender's Stop during Destroy panicked: %v %v", p, inner)
+	}
+	log.Destroy()
+	log.VerifReset()
 }
 
 func runHistory(r *hx.Result, rng *rand.Rand, console *sys.Console, tmp string, h *lcHist, async bool) {
